@@ -238,7 +238,7 @@ func runEVT(w *World, f *Func, r evtRule) []evtFinding {
 					}
 				}
 				if ev == "BACKEDGE" || ev == "NEXT" {
-					know = ""
+					know = keepConstKnowledge(know)
 				}
 				res[nx+know] = true
 			}
@@ -255,13 +255,19 @@ func runEVT(w *World, f *Func, r evtRule) []evtFinding {
 			return states
 		}
 		obj, ok := info.Uses[id].(*types.Var)
-		if !ok || obj.IsField() || len(ef.assigns[obj]) != 1 || ef.addrOf[obj] {
+		if !ok || obj.IsField() || ef.addrOf[obj] {
 			return states
 		}
 		if b, ok := obj.Type().Underlying().(*types.Basic); !ok || b.Kind() != types.Bool {
 			return states
 		}
-		tagT, tagF := fmt.Sprintf("§%d=T", obj.Pos()), fmt.Sprintf("§%d=F", obj.Pos())
+		prefix := "§"
+		if isConstBool(ef, info, obj) {
+			prefix = "§c"
+		} else if len(ef.assigns[obj]) != 1 {
+			return states
+		}
+		tagT, tagF := fmt.Sprintf("%s%d=T", prefix, obj.Pos()), fmt.Sprintf("%s%d=F", prefix, obj.Pos())
 		mine, other := tagT, tagF
 		if !branch {
 			mine, other = tagF, tagT
@@ -332,12 +338,25 @@ func runEVT(w *World, f *Func, r evtRule) []evtFinding {
 					}
 					return
 				}
+				states = constBoolAssign(ef, info, states, p)
 				if r.prim != nil {
 					if evs := r.prim(p); len(evs) > 0 {
 						states = apply(states, evs, p)
 					}
 				}
 			})
+			if vs, ok := n.(*ast.ValueSpec); ok {
+				states = constBoolAssign(ef, info, states, vs)
+			}
+			if ds, ok := n.(*ast.DeclStmt); ok {
+				if gd, ok := ds.Decl.(*ast.GenDecl); ok {
+					for _, sp := range gd.Specs {
+						if vs, ok := sp.(*ast.ValueSpec); ok {
+							states = constBoolAssign(ef, info, states, vs)
+						}
+					}
+				}
+			}
 		}
 		for si, succ := range b.Succs {
 			st2 := states
@@ -348,6 +367,16 @@ func runEVT(w *World, f *Func, r evtRule) []evtFinding {
 						if sw, ok := w.parent[w.parent[cc]].(*ast.SwitchStmt); ok && sw.Tag != nil {
 							tag = sw.Tag
 						}
+					}
+					// drop the states whose knowledge about tracked booleans already decides the whole condition the other way
+					if tag == nil {
+						pruned := map[string]bool{}
+						for full := range st2 {
+							if v := evalKnown(info, cond, full); v == 0 || (v == 1) == (si == 0) {
+								pruned[full] = true
+							}
+						}
+						st2 = pruned
 					}
 					// go/cfg keeps conditions whole: decompose !, && (true edge) and || (false edge) into leaves
 					for _, le := range decomposeCond(cond, si == 0) {
@@ -374,8 +403,8 @@ func runEVT(w *World, f *Func, r evtRule) []evtFinding {
 				if kind == "BACKEDGE" {
 					cleared := map[string]bool{}
 					for full := range st2 {
-						st, _ := splitState(full)
-						cleared[st] = true
+						st, know := splitState(full)
+						cleared[st+keepConstKnowledge(know)] = true
 					}
 					st2 = cleared
 				}
@@ -385,6 +414,9 @@ func runEVT(w *World, f *Func, r evtRule) []evtFinding {
 				if !in[succ.Index][st] {
 					in[succ.Index][st] = true
 					changed = true
+					if len(in[succ.Index]) > 4096 || len(st) > 4000 {
+						panic(fmt.Sprintf("EVT automaton of rule %q is not finite on %s (state %.200q…)", r.name, f.Name, st))
+					}
 				}
 			}
 			if changed && !queued[succ.Index] {
@@ -476,4 +508,146 @@ func decomposeCond(cond ast.Expr, branch bool) []edgeInfo {
 		}
 	}
 	return []edgeInfo{{Cond: cond, Branch: branch}}
+}
+
+// isConstBool: a boolean local all of whose assignments store a constant (or the zero value of a var declaration).
+func isConstBool(ef *entFn, info *types.Info, obj *types.Var) bool {
+	as := ef.assigns[obj]
+	if len(as) < 2 {
+		return false
+	}
+	for _, a := range as {
+		switch a := a.(type) {
+		case *ast.AssignStmt:
+			if len(a.Lhs) != len(a.Rhs) {
+				return false
+			}
+			for i, l := range a.Lhs {
+				if id := identOf(l); id != nil && (info.Uses[id] == obj || info.Defs[id] == obj) {
+					if tv, ok := info.Types[a.Rhs[i]]; !ok || tv.Value == nil {
+						return false
+					}
+				}
+			}
+		case *ast.ValueSpec:
+			if len(a.Values) != 0 {
+				for i, nm := range a.Names {
+					if info.Defs[nm] == obj && i < len(a.Values) {
+						if tv, ok := info.Types[a.Values[i]]; !ok || tv.Value == nil {
+							return false
+						}
+					}
+				}
+			}
+		default:
+			return false
+		}
+	}
+	return true
+}
+
+// constBoolAssign updates the knowledge about constant-assigned boolean locals at an assignment or declaration.
+func constBoolAssign(ef *entFn, info *types.Info, states map[string]bool, n ast.Node) map[string]bool {
+	set := func(states map[string]bool, obj *types.Var, val bool) map[string]bool {
+		tagT, tagF := fmt.Sprintf("§c%d=T", obj.Pos()), fmt.Sprintf("§c%d=F", obj.Pos())
+		mine := tagT
+		if !val {
+			mine = tagF
+		}
+		res := map[string]bool{}
+		for full := range states {
+			full = strings.ReplaceAll(strings.ReplaceAll(full, tagT, ""), tagF, "")
+			res[full+mine] = true
+		}
+		return res
+	}
+	switch a := n.(type) {
+	case *ast.AssignStmt:
+		if len(a.Lhs) != len(a.Rhs) {
+			return states
+		}
+		for i, l := range a.Lhs {
+			id := identOf(l)
+			if id == nil {
+				continue
+			}
+			obj, _ := info.Uses[id].(*types.Var)
+			if obj == nil {
+				obj, _ = info.Defs[id].(*types.Var)
+			}
+			if obj == nil || !isConstBool(ef, info, obj) {
+				continue
+			}
+			if tv, ok := info.Types[a.Rhs[i]]; ok && tv.Value != nil {
+				states = set(states, obj, tv.Value.ExactString() == "true")
+			}
+		}
+	case *ast.ValueSpec:
+		for i, nm := range a.Names {
+			obj, _ := info.Defs[nm].(*types.Var)
+			if obj == nil || !isConstBool(ef, info, obj) {
+				continue
+			}
+			val := false
+			if i < len(a.Values) {
+				if tv, ok := info.Types[a.Values[i]]; ok && tv.Value != nil {
+					val = tv.Value.ExactString() == "true"
+				}
+			}
+			states = set(states, obj, val)
+		}
+	}
+	return states
+}
+
+// keepConstKnowledge keeps only the knowledge about constant-assigned booleans (it survives loop iterations).
+func keepConstKnowledge(know string) string {
+	out := ""
+	for _, part := range strings.Split(know, "§") {
+		if strings.HasPrefix(part, "c") {
+			out += "§" + part
+		}
+	}
+	return out
+}
+
+// evalKnown evaluates a condition under the boolean knowledge of a state: 1 true, -1 false, 0 unknown.
+func evalKnown(info *types.Info, cond ast.Expr, full string) int {
+	cond = unparen(cond)
+	switch x := cond.(type) {
+	case *ast.Ident:
+		if obj, ok := info.Uses[x].(*types.Var); ok {
+			for _, prefix := range []string{"§c", "§"} {
+				if strings.Contains(full, fmt.Sprintf("%s%d=T", prefix, obj.Pos())) {
+					return 1
+				}
+				if strings.Contains(full, fmt.Sprintf("%s%d=F", prefix, obj.Pos())) {
+					return -1
+				}
+			}
+		}
+	case *ast.UnaryExpr:
+		if x.Op == token.NOT {
+			return -evalKnown(info, x.X, full)
+		}
+	case *ast.BinaryExpr:
+		l, r := evalKnown(info, x.X, full), evalKnown(info, x.Y, full)
+		switch x.Op {
+		case token.LAND:
+			if l == -1 || r == -1 {
+				return -1
+			}
+			if l == 1 && r == 1 {
+				return 1
+			}
+		case token.LOR:
+			if l == 1 || r == 1 {
+				return 1
+			}
+			if l == -1 && r == -1 {
+				return -1
+			}
+		}
+	}
+	return 0
 }
